@@ -131,7 +131,7 @@ def main(argv):
         dst = os.path.join(VERIF, "seeded", name)
         os.makedirs(dst, exist_ok=True)
         for f in glob.glob(os.path.join(d, "*")):
-            if os.path.isfile(f) and os.path.getsize(f) < 200000:
+            if os.path.isfile(f) and os.path.getsize(f) < 200000 and os.path.abspath(os.path.dirname(f)) != os.path.abspath(dst):
                 shutil.copy(f, dst)
         readme = ""
         rp = os.path.join(d, "README.md")
